@@ -224,6 +224,18 @@ def run_case(ctx, case):
                     pass
         ctx.count("decoded_again_after_receiver_consumed_the_first")
         again = decode(raw)
+        # a receive buffer that is reused: the message decoded from it keeps its values when the next bytes overwrite the buffer
+        buf = bytearray(raw)
+        try:
+            from_buf = decode(buf)
+        except TypeError:
+            ctx.count("bytearray_input_refused")      # (the documented input type is bytes; subroutine messages insist on it)
+            from_buf = None
+        if from_buf is not None:
+            for i in range(len(buf)):
+                buf[i] ^= 0x5A
+            ctx.count("decoded_from_a_receive_buffer_that_is_then_overwritten")
+            check_fields(from_buf, cls, fields, raw)
         check_fields(again, cls, fields, raw)
 
     def check_fields(msg, cls, fields, raw):
